@@ -124,6 +124,7 @@ def run_case(case):
                                'msg': 'trace process %s exited %s with %d/%d records' % (
                                    config[0], code, len(records), last - first)})
     ref = results['ref']
+    diagnosed = 0
     if first == 0:
         # deterministic canary for the known finding (consequence of D15 under -O)
         canary_ref, _ = trace_config(CONFIGS[0], seed, -1, 0)
@@ -153,7 +154,9 @@ def run_case(case):
                 continue
             stats['in_process_reruns'] += 1
             if not rec['again']:
-                diff = first_difference(seed, first, index, config, within=True)
+                diagnosed += 1
+                diff = first_difference(seed, first, index, config, within=True) \
+                    if diagnosed <= 2 else {'not diagnosed': 'see the first ones'}
                 violations.append({
                     'mechanism': classify(diff),
                     'msg': 'program %d gives two different logs in one process (%s): %s' % (
@@ -167,7 +170,12 @@ def run_case(case):
                 continue
             stats['pairs_compared'] += 1
             if rec['digest'] != base['digest'] or rec['trace'] != base['trace']:
-                diff = first_difference(seed, first, index, config)
+                # (finding the first differing event costs two more runs of the batch: only
+                # for the first two divergences of a batch - a change that makes every program
+                # differ must not turn the verdict into a time-out)
+                diagnosed += 1
+                diff = first_difference(seed, first, index, config) \
+                    if diagnosed <= 2 else {'not diagnosed': 'see the first ones'}
                 mechanism = classify(diff)
                 if (rec.get('d15') or base.get('d15')) and config[2]:
                     # known finding D15 (C03): the leaked CancelScope of first() ends up in
